@@ -62,6 +62,12 @@ NEEDS = {
  'C10-f': 'checked_insert_after on a last child appends a node from ANOTHER parent without detaching it: the node sits in two child lists, forward and backward iteration of the old parent disagree',
  'C11-f': 'get_node_id_at guarded by is_allocated(position) comparing the ONE-based position with capacity(): None for the live last position of an exactly full arena',
  'C14-f': 'fast path for a childless start node returns write!(f, "{}", payload) before the alternate flag is read: {:#} / {:#?} of a leaf print the plain rendering',
+ 'C02-g': 'preceding_siblings constructor looks for the first sibling by walking previous_sibling in a loop that never advances when the node has no parent: for a parentless node with a previous sibling (top-level chain, e.g. after removing a root with >= 2 children) the call never returns',
+ 'C06-g': 'NodeStamp::as_removed written as (-x).min(-1): the generation stops advancing after the first reuse (0 -> -1 -> 1 -> -1 -> 1 ...); from the second recycling of a slot on the previous occupant\'s id is handed out again and its is_removed flips back to false',
+ 'C09-g': 'Descendants::next steps directly to the next node in pre-order and tests the subtree bound only on proper ancestors of the current node: a leaf start node with a next sibling (or whose ancestor has one) runs on into the rest of the tree',
+ 'C12-g': 'branch-free removed test on the two stamps written with XOR instead of OR: an insert whose two arguments are BOTH removed (two different removed nodes) is accepted (release) or panics after writing a link (debug)',
+ 'C13-g': 'with_capacity clamps the eager allocation to 4096 nodes: with_capacity(n).capacity() < n for n > 4096',
+ 'C17-g': 'Display for NodeId goes through Formatter::pad(&index1.to_string()) only with feature std: width / precision in the format spec are honoured with std and ignored without',
  'C14-b': 'write_str fast path for fragments arriving mid-line tests ends_with(newline) instead of contains: a later chunk with an interior newline loses guides and alignment',
 }
 rows = {}
